@@ -90,7 +90,8 @@ def ground_axioms(terms, max_pairs=12, rounds=1):
             for j in range(i + 1, len(exps)):
                 a, b = exps[i].arg(0), exps[j].arg(0)
                 ax.append(exps[i] * exps[j] == exp(norm(a + b)))
-    ax.append(exp(z3.RealVal(0)) == 1)
+    if exps:
+        ax.append(exp(z3.RealVal(0)) == 1)
     for t in apps.get("sqrt", []):
         x = t.arg(0)
         ax.append(z3.Implies(x >= 0, z3.And(t * t == x, t >= 0)))
